@@ -89,7 +89,7 @@ func DecodeAddress(addr string, defaultNet *chaincfg.Params) (Address, error) {
 	// Add prefix if it does not exist, and try bch prefix first
 	addrWithPrefix := addr
 	if !strings.EqualFold(addr[:len(bchPrefix)+1], bchPrefix+":") && !strings.EqualFold(addr[:len(slpPrefix)+1], slpPrefix+":") {
-		addrWithPrefix = bchPrefix + ":" + strings.ToLower(addr) // so we don't mix cases
+		addrWithPrefix = bchPrefix + ":" + toLowerASCII(addr) // so we don't mix cases
 	}
 
 	var cashaddrErr error
@@ -121,7 +121,7 @@ func DecodeAddress(addr string, defaultNet *chaincfg.Params) (Address, error) {
 		// try to decode with slp prefix instead
 		addrWithPrefix := addr
 		if !strings.EqualFold(addr[:len(bchPrefix)+1], bchPrefix+":") && !strings.EqualFold(addr[:len(slpPrefix)+1], slpPrefix+":") {
-			addrWithPrefix = slpPrefix + ":" + strings.ToLower(addr) // so we don't mix cases
+			addrWithPrefix = slpPrefix + ":" + toLowerASCII(addr) // so we don't mix cases
 		}
 
 		// Switch on decoded length to determine the type.
@@ -932,6 +932,20 @@ func polyMod(v []byte) uint64 {
 
 func cat(x, y []byte) []byte {
 	return append(x, y...)
+}
+
+// toLowerASCII lowers the ASCII letters A-Z and nothing else.  strings.ToLower
+// also maps non-ASCII runes such as U+212A (KELVIN SIGN) onto characters of
+// the cashaddr alphabet, which made DecodeAddress accept strings that are not
+// case variants of the address they decode to.
+func toLowerASCII(s string) string {
+	b := []byte(s)
+	for i, c := range b {
+		if c >= 'A' && c <= 'Z' {
+			b[i] = c + ('a' - 'A')
+		}
+	}
+	return string(b)
 }
 
 func lowerCase(c byte) byte {
